@@ -269,3 +269,33 @@ Proof. exact @c06_joint_ok_trace. Qed.
 Print Assumptions c06_joint_ok_poll_invariant.
 Print Assumptions c06_joint_ok_from_invariant.
 Print Assumptions c06_joint_ok_every_trace.
+
+(* ---- c06_cap_ok: the retry cap, after EVERY event (every state, every event, every poll result:
+   Pending, Ready, error, panic).  CAPc cfg s = every segment of the table shows between 0 and
+   max_retransmissions retransmissions (CAP), and the option the connection carries is cfg's.  It is an
+   invariant: kept by every event, established by vsock_new whenever 0 <= vc_max_retx. *)
+Theorem c06_cap_ok_every_step : forall (CC : Type) (cci : cc_iface CC) (cfg : vconfig) (s : vsock CC) (o : vop),
+  CAPc cfg s -> CAPc cfg (vstep_state cci s o) /\ c06_cap_ok cfg (VSock_Lemmas.fstep_of cci s o) = true.
+Proof. exact @c06_cap_ok_step. Qed.
+
+Theorem c06_cap_initial : forall (CC : Type) (cci : cc_iface CC) (mk : Z -> Z -> CC) (c : vconfig) (s0 : vsock CC),
+  0 <= vc_max_retx c -> vsock_new cci mk c = Some s0 -> CAPc c s0.
+Proof. exact @CAPc_vsock_new. Qed.
+
+Theorem c06_cap_ok_every_trace : forall (CC : Type) (cci : cc_iface CC)
+    (mk : Z -> Z -> CC) (c : vconfig) (s0 : vsock CC) (ops : list vop),
+  0 <= vc_max_retx c -> vsock_new cci mk c = Some s0 ->
+  forallb (c06_cap_ok c) (ftrace cci s0 ops) = true.
+Proof. exact @c06_cap_ok_trace. Qed.
+
+(* the poll-level form: CAP after every poll whatever its result; the poll that gives up with
+   MaxRetransmissionsReached leaves an undelivered segment AT the cap in the table *)
+Theorem c06_cap_poll : forall (CC : Type) (cci : cc_iface CC) (s s' : vsock CC) (r : poll_result),
+  CAP s -> poll cci s = (s', r) ->
+  CAP s' /\ (r = PollReadyErr ErrMaxRetransmissionsReached -> MAXW s').
+Proof. exact @poll_CAP. Qed.
+
+Print Assumptions c06_cap_ok_every_step.
+Print Assumptions c06_cap_initial.
+Print Assumptions c06_cap_ok_every_trace.
+Print Assumptions c06_cap_poll.
